@@ -73,6 +73,8 @@ impl<'a> Scanner<'a> {
     }
 
     pub fn read(&mut self) -> char {
+        #[cfg(feature = "verif")]
+        crate::verif::scan_tick();
         #[allow(unused_mut)]
         let mut c = self.get();
         #[cfg(feature = "crlf")]
